@@ -172,6 +172,10 @@ def swapped_arguments(prog, call, callee_fn):
             pi, pj = norm(ps[i]["name"]), norm(ps[j]["name"])
             if pi == pj:
                 continue
+            if pi.startswith("cache_") and pj.startswith("cache_"):
+                # one named exemption: the two cache flags select code paths that C03 R-C03-3 / C04 / C06 / C07 prove
+                # equivalent under all four combinations; swapping them changes memory use, not any result
+                continue
             # two-sided: each argument carries the other's parameter name; one-sided: an argument carries the name of
             # ANOTHER parameter of the callee while its own position expects a different name
             if ri and rj and ri != rj and ri == pj and rj == pi:
